@@ -17,7 +17,7 @@ RULE = ("core lattice: physical x converted/logical type x {PLAIN, dictionary wi
         "width class, page version, level plan, codec, nulls, fallback) tuples")
 ASSUMPTIONS = ["every generated file is first validated and decoded by the reference reader (a file it rejects or decodes differently makes the case a harness error, not a verdict)",
                "NaN and NULL are not distinguished in float columns on the pandas side"]
-CASE_TIMEOUT = 300
+CASE_TIMEOUT = 120
 
 from vf.gen import recipes as RC
 
@@ -36,7 +36,10 @@ def gen_cases(tier, seed):
 
     def add(cid, cols, rgs=(60,), codec="UNCOMPRESSED", **extra):
         k[0] += 1
-        cases.append(dict({"id": cid, "recipe": {"seed": 3000 + k[0], "flat": True, "row_groups": list(rgs), "codec": codec, "columns": cols}}, **extra))
+        rec = {"seed": 3000 + k[0], "flat": True, "row_groups": list(rgs), "codec": codec, "columns": cols}
+        if extra.get("pandas_units_"):
+            rec["pandas_units"] = extra.pop("pandas_units_")
+        cases.append(dict({"id": cid, "recipe": rec}, **extra))
 
     quick = tier == "quick"
     # --- every type: PLAIN / dict, v1 / v2, required / optional with null patterns
@@ -87,6 +90,25 @@ def gen_cases(tier, seed):
             add("Z/%s/%s" % (codec, flag), [_col("i64", page_version=2, v2_compressed=flag, page_rows=[25]), _col("utf8", name="s", page_version=2, v2_compressed=flag,
                                                                                                                    use_dict=True, distinct=4, optional=True, nulls="alt")],
                 rgs=(80,), codec=codec)
+    # --- a dictionary-encoded column chunk without any value (all rows NULL): a dictionary page with zero entries and zero bytes
+    for t in ("i32", "i64", "f64", "utf8", "bytes", "ts_us"):
+        for ver in (1, 2):
+            for codec in ("UNCOMPRESSED", "SNAPPY"):
+                add("E/%s/v%d/%s" % (t, ver, codec),
+                    [_col(t, optional=True, nulls="all", use_dict=True, dict_when_empty=True, page_version=ver, page_rows=[9, 30]), _col("i64", name="x", page_version=ver)],
+                    rgs=(25, 8), codec=codec, empty_dictionary=True)
+    # --- time columns whose pandas metadata asks for a finer resolution than the stored one (what pyarrow writes with coerce_timestamps, and
+    #     what pandas' own default timedelta64[ns] -> TIME_MICROS gives): the reader has to rescale, on every page path
+    finer = {"ts_ms": ["ms", "us", "ns"], "ts_ms_l": ["us", "ns"], "ts_us": ["us", "ns"], "ts_us_l": ["ns"], "time_ms": ["us", "ns"], "time_us": ["us", "ns"]}
+    for t, units in finer.items():
+        for u in units:
+            for ver, (opt, nulls), use_dict in itertools.product((1, 2), ((False, "none"), (True, "none"), (True, "p20")), (False, True)):
+                if quick and (zlib.crc32(repr((t, u, ver, opt, nulls, use_dict)).encode()) % 2):
+                    continue
+                add("PM/%s/%s/v%d/%s/%s/%s" % (t, u, ver, "opt" if opt else "req", nulls, "dict" if use_dict else "plain"),
+                    [_col(t, optional=opt, nulls=nulls, use_dict=use_dict, distinct=7 if use_dict else None, page_version=ver, page_rows=[11, 30]),
+                     _col("f64", name="x", page_version=ver)],
+                    rgs=(41, 20), codec=RC.CODECS[k[0] % len(RC.CODECS)], pandas_units_={"c": u})
     # --- outside the supported set: must be refused
     for u in ("DELTA_LENGTH_BYTE_ARRAY", "DELTA_BYTE_ARRAY", "BYTE_STREAM_SPLIT", "LZO_CODEC"):
         for ver in (1, 2):
@@ -230,6 +252,10 @@ def run_case(case):
             res["features"] = [_feat(c, rec, case) for c in rec["columns"]]
             return res
         counters["files_read"] = 1
+        if case.get("empty_dictionary"):
+            counters["files_with_an_empty_dictionary_page"] = 1
+        if rec.get("pandas_units"):
+            counters["files_with_pandas_resolution_metadata"] = 1
         n = sum(rec["row_groups"])
         if len(got) != n:
             res["failures"].append({"kind": "row_count", "expected": n, "got": len(got), **ctx})
@@ -249,6 +275,9 @@ def run_case(case):
                                             "all_bad_expected_null": all(ev[i] is None for i in bad), "all_bad_got_null": all(gv[i] is None for i in bad),
                                             "got_dtype": str(got[name].dtype), **ctx, **cd})
                 counters["cells_compared"] = counters.get("cells_compared", 0) + len(ev)
+            pu = (rec.get("pandas_units") or {}).get(name)
+            if pu and ("[%s" % pu) not in str(got[name].dtype):
+                res["failures"].append({"kind": "resolution_of_pandas_metadata_not_honoured", "column": name, "wanted_unit": pu, "got_dtype": str(got[name].dtype), **ctx, **cd})
             if not dtype_family_ok(c["type"], got[name].dtype):
                 res["failures"].append({"kind": "dtype_family", "column": name, "got_dtype": str(got[name].dtype), **ctx, **cd})
             counters["columns_compared"] = counters.get("columns_compared", 0) + 1
@@ -294,4 +323,4 @@ def coverage_extra(agg):
 
 def required(tier):
     return {"files_read": 700, "columns_compared": 900, "enc:DICT": 200, "enc:PLAIN": 200, "enc:DELTA_BINARY_PACKED": 80, "enc:RLE": 10,
-            "unsupported_files": 8}
+            "unsupported_files": 8, "files_with_pandas_resolution_metadata": 40, "files_with_an_empty_dictionary_page": 20}
